@@ -371,6 +371,18 @@ def _flows_to_return(f, l, depth=0):
 
 
 def run(ctx):
+    _run(ctx)
+    # R5: every error of the source other than Interrupted is parked (and ends the input): the flag law of C02-R5, run here too
+    from .c02 import run_r5 as c02_r5
+    r5 = ctx.rule("C04-R5", "a failing read is parked as the I/O error whatever its kind; only Ok(0) is a clean end (shared with C02-R5)", floor=20)
+    c02_r5(ctx, r5)
+    return _RET[0]
+
+
+_RET = [None]
+
+
+def _run(ctx):
     r1 = ctx.rule(
         "C04-R1",
         "no API success return rests on an end-of-input answer without a later check of the parked I/O error",
@@ -385,4 +397,4 @@ def run(ctx):
     run_r4(ctx, r4)
     ctx.assume("unresolved leaf calls do not touch reader state; unwinding edges are not taken")
     ctx.assume("a look-ahead whose result is never branched on does not decide a success (no event is generated for it)")
-    return "other", "typestate (clean/pending-end) decided on every path of every public parser function that returns Result/Parsed; plus who-may-construct, eof-token and no-dropped-error rules", {}
+    _RET[0] = ("other", "typestate (clean/pending-end/raised) decided on every path of every public parser function that returns Result/Parsed; plus who-may-construct, eof-token, no-dropped-error and error-parking rules", {})
